@@ -999,6 +999,7 @@ def directed_cases():
         _case("frame", [_F("int64", [chk("lt", max_value=10)], name="a", witness=3)], 3,
               df_checks=[{"k": "ge", "a": {"min_value": 0}}]),
         _case("multiindex", [_F("string", name="a", witness="x"), _F("int64", name="b", witness=1)], 2),
+        _case("series", [_F("str", [chk("eq", value="a\x00")], witness="a\x00", support=1)], 2),
         _case("index", [_F("int64", [chk("in_range", min_value=0, max_value=9, include_min=True,
                                          include_max=True),
                                      ("c_vec", {"fn": "mod", "m": 2, "r": 0})], witness=4)], 3),
